@@ -5,6 +5,15 @@ HERE = os.path.dirname(os.path.dirname(os.path.abspath(__file__)))
 ids = [json.loads(l)["id"] for l in open(os.path.join(HERE, "properties.jsonl"))]
 
 CLAIMS = {
+ "C03": dict(
+   text="ofp_match.matches_with_wildcards is proved equal to the OpenFlow 1.0 match predicate for every wildcard word, "
+        "every prefix length and all field values; ofp_match.from_packet is proved against the extraction rules for 14 header-"
+        "chain shapes (VLAN, LLC, SNAP, IPv4 TCP/UDP/ICMP/other/fragments, ARP); FlowTable.add_entry (binary-search insert) "
+        "and FlowTable.entry_for_packet (first match = highest effective priority, exact entries first, miss iff nothing "
+        "matches) are proved for tables of ANY length with loop invariants over a symbolic list.",
+   note="trusted: pyvc encoding, z3; entries in stored normal form; opaque envelope for table listeners; from_packet used as "
+        "a callee contract inside entry_for_packet (proved separately).",
+   ref="7/C03"),
  "C01": dict(
    text="Every OpenFlow 1.0 codec class of libopenflow_01 (22 message types, actions, queue properties, statistics bodies, "
         "ofp_match, ofp_phy_port) has contracts generated from layout tables transcribed from openflow.h: pack() equals the "
